@@ -411,6 +411,10 @@ func (vc *VC) TranslateFunction(fn *ssa.Function, con *Contract) (sc *Script, er
 	f.ideal = sc.Ideal
 	f.cur = &State{cells: map[string]Term{}}
 	f.curReach = BoolLit(true)
+	// register the sorts of the signature (contracts may quantify over them)
+	for i := 0; i < fn.Signature.Results().Len(); i++ {
+		vc.sortOf(fn.Signature.Results().At(i).Type())
+	}
 	// parameters
 	var args []Term
 	ghostTerms := map[string]Term{}
@@ -667,6 +671,10 @@ func (vc *VC) typeParamSorts(fn *ssa.Function) map[string]*Sort {
 	org := fn
 	if fn.Origin() != nil {
 		org = fn.Origin()
+	}
+	// struct sorts by datatype name (object_ExtendedSpatialID, ...)
+	for n, ss := range vc.structSorts {
+		out[n] = ss
 	}
 	tps := org.TypeParams()
 	targs := fn.TypeArgs()
